@@ -731,8 +731,14 @@ def verify_contract(ctx, contract: Contract, prop: str):
         body_path = p0.fork()
         task.entry_path = old_path          # `old(...)` inside loop invariants
         task.func = f
-        for q, o in run_body_outcomes(ctx, body_path, f, env):
-            work.append((old_path, q, o))
+        # a call log is compared record by record: keep the arms of an `if` as separate paths (concrete logs)
+        saved_nm = getattr(ctx, "no_merge", False)
+        ctx.no_merge = saved_nm or ("EXT" in contract.ghost)
+        try:
+            for q, o in run_body_outcomes(ctx, body_path, f, env):
+                work.append((old_path, q, o))
+        finally:
+            ctx.no_merge = saved_nm
     ctx.current = None
 
     # ---- phase B: the postcondition obligations of one outcome path (independent of the others)
